@@ -59,6 +59,8 @@ def _deal(owner, empty, dtype, stats=None):
     from bridge_env.data_handler.json_handler.parser import hands_parser
     owner = [None if s in empty else s for s in owner]
     hands = [sorted(c for c in range(52) if owner[c] == s) for s in range(4)]
+    if sum(len(h) for h in hands[:2]) % 8 == 0:
+        be.stir(len(hands[0]))       # unrelated library activity (random deals, plays, formats) in between
     H = be.hands_from_owner(owner)
     base = {'deal': {A.SEATS[s]: PL.fmt_cards(hands[s]) for s in range(4)}}
     for first in range(4):
